@@ -155,8 +155,7 @@ Section ProgS.
   Let cs : configs := compile_prog p.
 
   (* the body of a flow of the program *)
-  Definition flow_body (fl : string) : option (list stmt) :=
-    if String.eqb fl (p_id p) then Some (p_main p) else lookup fl (p_subs p).
+  Definition flow_body (fl : string) : option (list stmt) := lookup fl (all_flows p).
 
   Definition code (b : list stmt) : list elem := compile_block None b.
 
@@ -165,7 +164,7 @@ Section ProgS.
 
   Lemma wf_parts :
     (exists i0 rest0, p_main p = SUser i0 :: rest0 /\ wf_block false rest0 = true) /\
-    Forall (fun nb => wf_block false (snd nb) = true) (p_subs p) /\
+    Forall (fun nb => snd nb <> [] /\ wf_block false (snd nb) = true) (p_subs p) /\
     ~ In (p_id p) (map fst (p_subs p)).
   Proof.
     pose proof Hwf as W. unfold wf_prog in W.
@@ -175,7 +174,9 @@ Section ProgS.
     split; [|split].
     - destruct (p_main p) as [|s rest0]; [discriminate|]. destruct s; try discriminate.
       exists intent, rest0. split; [reflexivity|]. simpl in W2. exact W2.
-    - apply Forall_forall. intros nb Hin. rewrite forallb_forall in W3. apply W3. exact Hin.
+    - apply Forall_forall. intros nb Hin. rewrite forallb_forall in W3. specialize (W3 _ Hin).
+      apply andb_true_iff in W3. destruct W3 as [Wa Wb]. split; [|exact Wb].
+      destruct (snd nb); [discriminate|congruence].
     - simpl in W4. apply andb_true_iff in W4. destruct W4 as [W4 _]. apply negb_true_iff in W4.
       intros Hin. unfold string_in in W4.
       assert (existsb (String.eqb (p_id p)) (map fst (p_subs p)) = true).
@@ -183,10 +184,126 @@ Section ProgS.
       congruence.
   Qed.
 
-  Lemma lookup_in : forall {A} k (l : list (string * A)) v, lookup k l = Some v -> In k (map fst l).
+  Lemma lookup_in : forall {A} k (l : list (string * A)) v, lookup k l = Some v -> In (k, v) l.
   Proof.
     induction l as [|[k' v'] l IH]; intros v H; simpl in *; [discriminate|].
-    destruct (String.eqb k k') eqn:E; [left; apply String.eqb_eq in E; auto|right; eapply IH; eauto].
+    destruct (String.eqb k k') eqn:E.
+    - inversion H; subst. apply String.eqb_eq in E. subst. left; reflexivity.
+    - right. apply IH. exact H.
   Qed.
 
+  Lemma flow_body_wf : forall fl b, flow_body fl = Some b -> wf_block false b = true /\ 0 < zlen (code b).
+  Proof.
+    intros fl b H. unfold flow_body, all_flows in H. simpl in H.
+    destruct wf_parts as ((i0 & rest0 & Em & Hr) & Hs & _).
+    destruct (String.eqb fl (p_id p)).
+    - inversion H; subst b. rewrite Em. split; [simpl; exact Hr|].
+      unfold code. simpl compile_block. rewrite zlen_cons.
+      pose proof (zlen_nonneg (compile_block None rest0)). lia.
+    - apply lookup_in in H. rewrite Forall_forall in Hs. destruct (Hs _ H) as [Hne Hb]. simpl in *.
+      split; [exact Hb|]. unfold code. rewrite compile_block_length.
+      destruct b as [|s r]; [congruence|]. rewrite bsize_cons.
+      pose proof (size_pos s). pose proof (bsize_nonneg r). lia.
+  Qed.
+
+  Lemma find_cfg : forall fl b, flow_body fl = Some b -> find_config cs fl = Some (cfg_of fl b).
+  Proof.
+    intros fl b H. unfold flow_body, all_flows in H. simpl in H. unfold cs, compile_prog, cfg_of. simpl.
+    rewrite (String.eqb_sym (p_id p) fl). destruct (String.eqb fl (p_id p)) eqn:E.
+    - inversion H; subst. apply String.eqb_eq in E. subst fl. reflexivity.
+    - simpl. clear - H. induction (p_subs p) as [|[k v] l IH]; simpl in *; [discriminate|].
+      rewrite (String.eqb_sym k fl). destruct (String.eqb fl k) eqn:E2.
+      + inversion H; subst. apply String.eqb_eq in E2. subst. reflexivity.
+      + apply IH. exact H.
+  Qed.
+
+  Lemma find_cfg_none : forall fl, flow_body fl = None -> find_config cs fl = None.
+  Proof.
+    intros fl H. unfold flow_body, all_flows in H. simpl in H. unfold cs, compile_prog. simpl.
+    rewrite (String.eqb_sym (p_id p) fl). destruct (String.eqb fl (p_id p)); [discriminate|].
+    clear - H. induction (p_subs p) as [|[k v] l IH]; simpl in *; [reflexivity|].
+    rewrite (String.eqb_sym k fl). destruct (String.eqb fl k); [discriminate|]. apply IH. exact H.
+  Qed.
+
+  Lemma main_body : flow_body (p_id p) = Some (p_main p).
+  Proof. unfold flow_body, all_flows. simpl. rewrite String.eqb_refl. reflexivity. Qed.
+
+  (* ---------------------------------------------------------------- frames and chains *)
+
+  Definition active_at (fs : fstate) (w : wait) (kw : kont) : Prop :=
+    f_status fs = Active /\ f_intby fs = None /\
+    exists b lp, flow_body (f_flow fs) = Some b /\ instr (code b) (f_head fs) = Some (elem_of_wait w) /\
+                 wf_wait w /\ kmatch (code b) kw (f_head fs + 1) lp.
+
+  Definition interrupted_at (fs : fstate) (k : kont) (u : N) : Prop :=
+    f_status fs = Interrupted /\ f_intby fs = Some u /\
+    exists b lp, flow_body (f_flow fs) = Some b /\ kmatch (code b) k (f_head fs) lp.
+
+  (* chain l w kw stk top: l = [f0; f1; ...; fm], f0 waits on w with continuation kw, f(i+1) is
+     interrupted by fi with continuation stk[i]; top = uid of fm *)
+  Inductive chain : list fstate -> wait -> kont -> list kont -> N -> Prop :=
+  | chain_one : forall f0 w kw, active_at f0 w kw -> chain [f0] w kw [] (f_uid f0)
+  | chain_snoc : forall l fi w kw stk ki top,
+      chain l w kw stk top -> interrupted_at fi ki top ->
+      chain (l ++ [fi]) w kw (stk ++ [ki]) (f_uid fi).
+
+  Lemma chain_nonempty : forall l w kw stk top, chain l w kw stk top -> l <> [].
+  Proof. induction 1; [discriminate|]. destruct l; discriminate. Qed.
+
+  Lemma chain_last : forall l x w kw stk top,
+    chain (l ++ [x]) w kw stk top ->
+    top = f_uid x /\
+    ((l = [] /\ stk = [] /\ active_at x w kw) \/
+     (exists stk0 ki top0, stk = stk0 ++ [ki] /\ chain l w kw stk0 top0 /\ interrupted_at x ki top0)).
+  Proof.
+    intros l x w kw stk top H. inversion H; subst.
+    - destruct l; [|destruct l; discriminate]. simpl in *. inversion H0; subst. split; [reflexivity|].
+      left. auto.
+    - apply app_inj_tail in H0. destruct H0; subst. split; [reflexivity|].
+      right. eauto.
+  Qed.
+
+  Lemma chain_last_head : forall l x w kw stk top, chain (l ++ [x]) w kw stk top -> 0 <= f_head x.
+  Proof.
+    intros l x w kw stk top H. destruct (chain_last _ _ _ _ _ _ H) as (_ & [(_ & _ & Ha)|(stk0 & ki & top0 & _ & _ & Hi)]).
+    - destruct Ha as (_ & _ & b & lp & _ & Hi & _). apply instr_lt in Hi. lia.
+    - destruct Hi as (_ & _ & b & lp & _ & Hk). apply kmatch_range in Hk. lia.
+  Qed.
+
+  Lemma chain_last_flow : forall l x w kw stk top, chain (l ++ [x]) w kw stk top ->
+    exists b, flow_body (f_flow x) = Some b.
+  Proof.
+    intros l x w kw stk top H. destruct (chain_last _ _ _ _ _ _ H) as (_ & [(_ & _ & Ha)|(stk0 & ki & top0 & _ & _ & Hi)]).
+    - destruct Ha as (_ & _ & b & lp & Hb & _). eauto.
+    - destruct Hi as (_ & _ & b & lp & Hb & _). eauto.
+  Qed.
+
+  (* ---------------------------------------------------------------- states *)
+
+  Definition end_state (s : state) (c u : ctx) (n : N) : state :=
+    {| st_ctx := c; st_fss := st_fss s; st_next := st_next s; st_by := st_by s; st_prio := st_prio s;
+       st_upd := u; st_uid := n |}.
+
+  Definition wait_state (s : state) (c u : ctx) (n : N) (pushed : list fstate) (w : wait) (u0 : N) : state :=
+    if actionable w
+    then {| st_ctx := c; st_fss := st_fss s ++ pushed; st_next := Some (elem_of_wait w); st_by := Some u0;
+            st_prio := Qred (1 * 1); st_upd := u; st_uid := n |}
+    else {| st_ctx := c; st_fss := st_fss s ++ pushed; st_next := st_next s; st_by := st_by s;
+            st_prio := st_prio s; st_upd := u; st_uid := n |}.
+
+  Definition first_uid (l : list fstate) (d : N) : N := match l with x :: _ => f_uid x | [] => d end.
+
+  Definition post_g (r : xres) (s : state) (fs : fstate) (res : res (state * fstate)) : Prop :=
+    match r with
+    | XEnd c' u' => exists h n', res = Ok (end_state s c' u' n', fs_head fs h) /\ h < 0 /\ (st_uid s <= n')%N
+    | XWait w kw stk c' u' =>
+        exists pushed fs' n',
+          res = Ok (wait_state s c' u' n' pushed w (first_uid (pushed ++ [fs']) 0%N), fs') /\
+          chain (pushed ++ [fs']) w kw stk (f_uid fs) /\
+          f_uid fs' = f_uid fs /\ f_flow fs' = f_flow fs /\
+          (st_uid s <= n')%N /\
+          Forall (fun f => (st_uid s <= f_uid f < n')%N) pushed /\ NoDup (map f_uid pushed)
+    | XExc => res = Exc
+    | XFuel => False
+    end.
 End ProgS.
